@@ -123,6 +123,19 @@ def _(): rep('internal/context_v2/context.go','''	ctx.sortedModules = sorted
 	ctx.sortedModules = sorted
 }''')
 
+@m('m15-8','C15')
+def _(): rep('internal/context_v2/context.go','''	ctx.mu.Lock()
+	defer ctx.mu.Unlock()
+	if module, exists := ctx.Modules[importPath]; exists {
+		module.Mu.Lock()
+		module.Phase = phase
+		module.Mu.Unlock()
+	}''','''	ctx.mu.RLock() // the map is only read here
+	defer ctx.mu.RUnlock()
+	if module, exists := ctx.Modules[importPath]; exists {
+		module.Phase = phase
+	}''')
+
 if __name__=='__main__':
     if sys.argv[1]=='list':
         for k,(c,_) in M.items(): print(k,c)
